@@ -74,16 +74,40 @@ def _outcome(fn):
         return ("ArithmeticError", str(type(e).__name__))
 
 
+ARG_MUTATED = []   # (operation, which argument, before, after): quantities passed as call arguments are the caller's too
+
+
+def _q(op, what, unit, value):
+    """a quantity to pass as a call argument, in a generated display unit; remembered so that _do can see it change"""
+    q = unit(value)
+    return q, (op, what, q.raw_value, q.units)
+
+
+def _args_intact(*pairs):
+    for q, (op, what, raw, units) in pairs:
+        if q.raw_value != raw or q.raw_value.__class__ is not raw.__class__:
+            ARG_MUTATED.append((op, what, raw, q.raw_value))
+
+
 def _do(op, calc, shot, keep=None):
     """execute one computing operation; -> hashable raw outcome"""
     name, a = op["op"], op["args"]
-    if name == "zero":
-        return _outcome(lambda: ("angle", calc.set_weapon_zero(shot, D.Foot(a["d"])).raw_value))
-    if name == "elevation":
-        return _outcome(lambda: ("angle", calc.barrel_elevation_for_target(shot, D.Foot(a["d"])).raw_value))
+    if name in ("zero", "elevation"):
+        d = _q(name, "distance", D.Foot, a["d"])
+        try:
+            if name == "zero":
+                return _outcome(lambda: ("angle", calc.set_weapon_zero(shot, d[0]).raw_value))
+            return _outcome(lambda: ("angle", calc.barrel_elevation_for_target(shot, d[0]).raw_value))
+        finally:
+            _args_intact(d)
     if name in ("fire", "fire_unreachable"):
+        rq, sq = _q(name, "range", D.Foot, a["R"]), _q(name, "step", D.Foot, a["step"])
+
         def f():
-            hit = calc.fire(shot, D.Foot(a["R"]), D.Foot(a["step"]), extra_data=a.get("extra", False), time_step=a.get("ts", 0.0))
+            try:
+                hit = calc.fire(shot, rq[0], sq[0], extra_data=a.get("extra", False), time_step=a.get("ts", 0.0))
+            finally:
+                _args_intact(rq, sq)
             if keep is not None:
                 keep.append(hit.trajectory)
             return ("rows", tuple(build.rows_raw(hit.trajectory)))
@@ -97,7 +121,11 @@ def _do(op, calc, shot, keep=None):
     if name == "danger":
         def f():
             hit = calc.fire(shot, D.Foot(a["R"]), D.Foot(a["R"] / 20), extra_data=True)
-            ds = hit.danger_space(D.Foot(a["R"] * a["at"]), D.Inch(a["h"]))
+            at, th = _q(name, "at_range", D.Foot, a["R"] * a["at"]), _q(name, "target_height", D.Inch, a["h"])
+            try:
+                ds = hit.danger_space(at[0], th[0])
+            finally:
+                _args_intact(at, th)
             return ("danger", ds.begin.distance.raw_value, ds.end.distance.raw_value, ds.at_range.distance.raw_value)
         return _outcome(f)
     raise AssertionError(name)
@@ -220,7 +248,11 @@ class History:
         c, s = self._calc(ci), self._shot(si)
         keep = []
         before_zero = s["spec"]["zero"]
+        del ARG_MUTATED[:]
         live = _do(op, c["obj"], s["obj"], keep)
+        if ARG_MUTATED:
+            o_, what, b_, a_ = ARG_MUTATED[0]
+            r.bad(f"C10:argument-mutated:call-argument:{what}", f"{o_}: the {what} quantity passed to the call had raw value {b_!r} before and {a_!r} after")
         clean = _do(op, _calc_for(c["cfg"]), build.shot(s["spec"]))
         far = self.pristine.ask(op, c["cfg"], s["spec"]) if self.pristine is not None else None
         if far is not None and far[0] == "ok" and far[1] != repr(clean) and live == clean:
